@@ -53,6 +53,10 @@ func buildChain(r *hx.Rng, ih uint64, n int) *chain {
 			for j := 0; j <= r.Intn(2); j++ {
 				txs = append(txs, []byte(fmt.Sprintf("c%d.%d.%d", i, j, r.Intn(1000))))
 			}
+			if r.Chance(30) { // a zero-length transaction somewhere in the list is a transaction like any other
+				pos := r.Intn(len(txs) + 1)
+				txs = append(txs[:pos], append([][]byte{{}}, txs[pos:]...)...)
+			}
 		}
 		env.Seq.Next = &hx.SeqResp{Txs: txs, Ts: time.Unix(0, ts)}
 		_ = env.M.VerifPublishBlock(context.Background())
@@ -230,6 +234,29 @@ func (c *chain) forgeries(r *hx.Rng) map[string][]byte {
 	ssg, _ := sPriv.Sign(pl)
 	out["data-secp256k1-key-proposer-address"] = rawDat(&d, ssg, gaddr, skey)
 	out["data-secp256k1-self-consistent-foreign"] = rawDat(&d, ssg, saddr, skey)
+	// wire messages with sub-messages ABSENT (not merely empty): only the header field of a genuine signed header, the
+	// same truncated in the middle of nothing, a bare empty header field, a signed data with nothing but a signature
+	if full, err := any.MarshalBinary(); err == nil {
+		var hdrOnly []byte
+		for b := full; len(b) > 0; {
+			num, typ, n := protowire.ConsumeTag(b)
+			if n < 0 {
+				break
+			}
+			m := protowire.ConsumeFieldValue(num, typ, b[n:])
+			if m < 0 {
+				break
+			}
+			if num == 1 {
+				hdrOnly = append(hdrOnly, b[:n+m]...)
+			}
+			b = b[n+m:]
+		}
+		out["hdr-signer-field-absent"] = hdrOnly
+		out["hdr-signer-absent-with-signature"] = protowire.AppendBytes(protowire.AppendTag(append([]byte(nil), hdrOnly...), 2, protowire.BytesType), any.Signature)
+	}
+	out["hdr-bare-empty-header-field"] = []byte{0x0a, 0x00}
+	out["data-only-a-signature"] = protowire.AppendBytes(protowire.AppendTag(nil, 2, protowire.BytesType), sg)
 	return out
 }
 
@@ -391,6 +418,28 @@ func genStream(r *hx.Rng, tier string, w io.Writer, adversarial bool) {
 				place(da, b, "")
 			}
 		}
+		if s < 3 {
+			// chunked fetch with a failing chunk that is not the last one, and genuine blobs inside the failing chunk:
+			// the height must be fetched again until every chunk came back, and the genuine blobs must reach the sync loop
+			da := start + maxDA + 2 + uint64(s)
+			gh := c.ih + uint64(r.Intn(int(c.top-c.ih+1)))
+			pre := []int{0, 100, 130}[s] // junk in front: the genuine blobs sit in chunk 0 / 1 / 1
+			for j := 0; j < pre; j++ {
+				place(da, []byte{byte(j), 0xfe, byte(j >> 3)}, "")
+			}
+			place(da, c.hdr[gh], fmt.Sprintf("h:%d", gh))
+			if b, ok := c.dat[gh]; ok {
+				place(da, b, fmt.Sprintf("d:%d", gh))
+			}
+			for j := 0; j < 260-pre; j++ {
+				place(da, []byte{byte(j), 0xfd, byte(j >> 3)}, "")
+			}
+			failing := []int{0, 1, 1}[s]
+			fmt.Fprintf(w, "script da=%d outcomes=errget:%d,errget:%d\n", da, failing, failing)
+			for k := start + maxDA; k < da; k++ { // nothing in between
+				_ = k
+			}
+		}
 		if s%5 == 0 { // more than 100 blobs at one height: chunked fetch
 			da := start + uint64(r.Intn(int(maxDA)))
 			for j := 0; j < 230; j++ {
@@ -414,7 +463,11 @@ func genStream(r *hx.Rng, tier string, w io.Writer, adversarial bool) {
 			}
 			fmt.Fprintf(w, "script da=%d outcomes=%s\n", da, strings.Join(outs, ","))
 		}
-		for t := 0; t < 5; t++ {
+		nt := 5
+		if s < 3 {
+			nt = 9
+		}
+		for t := 0; t < nt; t++ {
 			fmt.Fprintln(w, "tick")
 		}
 	}
